@@ -76,6 +76,9 @@ def run(ctx):
     # goroutine of the file must share the buffered writer only through the queue
     import c07 as _c07
     loads.append(("stalled-disk-asyncbufio", "TestVerifC07$", {"VERIF_NRANDOM": 40 if q else 400, "_pkg": "asyncbufio", "_files": _c07.H_ASYNC}))
+    # a run that ends by itself while data writing is on (ROACH device falls silent), with a client asking at that very
+    # moment whether writing is on: the hand-over of the writing state at the end of a run
+    loads.append(("selfend-while-writing", "TestVerifRoachSelfEnd$", {"VERIF_SELFEND_CYCLES": 1, "_files": [os.path.join(H, f) for f in ("common_test.go", "lifecycle_test.go", "abaco_udp_test.go", "roach_test.go")]}))
     events = []
     total = 0
     for name, run_, env in loads:
